@@ -6,11 +6,14 @@ pub type VmIndex = u32;
 #[verifier::external_body] pub struct Stacktrace { _p: () }
 #[verifier::external_body] pub struct Frame { _p: () }
 // thread.rs Error (variants used by the extracted text; the rest are `Other`)
-pub enum Error { Panic(Msg, Option<Stacktrace>), Interrupted, Message(Msg), Other(Msg) }
+pub enum Error { Panic(Msg, Option<Stacktrace>), Interrupted, Dead, Message(Msg), Other(Msg) }
 // stack.rs Stack projected on its frame list; `locked`: the top extern frame is locked (stack.rs Lock)
 pub struct Stack { pub frames: Vec<Frame>, pub locked: bool }
 // thread.rs Context / ActiveThread projected (R-lock: the guard returned by `context()` / `current_context()` is the `&mut` parameter)
 pub struct Context { pub stack: Stack }
+impl Stack {
+    pub fn get_frames(&self) -> (r: &Vec<Frame>) ensures r@ == self.frames@ { &self.frames }
+}
 pub struct Lock;
 #[verifier::external_body] pub struct OwnedCtx { _p: () }
 #[verifier::external_body] pub struct RootedValue { _p: () }
